@@ -127,4 +127,4 @@ contract(F, "Payload.is_payload", cases=[dict(payload="Payload|Fiber"), dict(pay
          case_names=["either", "box", "fiber", "scalar"], returns="bool", modifies=[],
          per_case={"either": dict(ensures=["result"]), "box": dict(ensures=["result"]), "fiber": dict(ensures=["result"]),
                    "scalar": dict(ensures=["not result"])},
-         verify=False, tier="T", note="imports Fiber locally; isinstance against (Payload, Fiber)")
+         note="imports Fiber locally; isinstance against (Payload, Fiber)")
